@@ -838,6 +838,10 @@ func (x *Explorer) iterValue(fr *Frame, st *State, ins *ssa.Call, it *IterV) Val
 		if ik, ok := it.Keys[0].(*IndexKeyV); ok {
 			row.Preset = map[string]Val{}
 			for i, f := range ik.Fields {
+				if i == ik.PrefixOnly {
+					// matched by byte prefix only: the row's own column, not the requested value
+					continue
+				}
 				row.F["."+f] = ik.Vals[i]
 				row.Preset[f] = ik.Vals[i]
 			}
